@@ -216,6 +216,9 @@ class Model(object):
         return exp
 
     def _apply(self, op):
+        if op.get('defect') == 'nan':
+            # allocation_ratio NaN: no inventory can have it; a client error
+            return Expect(400)
         if op.get('defect') == 'unencodable':
             # a lone surrogate in a stored string: cannot be stored, so it
             # is a client error and nothing changes
